@@ -366,6 +366,28 @@ fn generate(tier: &str, seed: u64, emit: &mut dyn FnMut(Case)) {
         let k = KINDS[(i % 6) as usize];
         emit(single(k, &random_string(k, &mut rng), "random"));
     }
+    // 5b. long strings around typical size limits (the grammars have no length bound): valid identifiers and digit strings of
+    //     length 63..66, 127..130, 255..258, 511..514, 1023..1026, 2047..2050 (UTF-8 bytes and, for layer names,
+    //     the same number of multi-byte characters), plus the same with one invalid character at the start / middle / end
+    for k in ["layer", "process", "bpid", "execd"] {
+        for base in [64usize, 128, 256, 512, 1024, 2048] { for d in [-1i64, 0, 1, 2] {
+            let n = (base as i64 + d) as usize;
+            let body: String = (0..n).map(|j| ['a', 'Z', '7', '-'][j % 4]).collect();
+            emit(single(k, &body, "long"));
+            if n <= 4097 {
+                for pos in [0usize, n / 2, n - 1] { let mut cs: Vec<char> = body.chars().collect(); cs[pos] = ' '; emit(single(k, &cs.iter().collect::<String>(), "long")); }
+                if k == "layer" { let mb: String = (0..n).map(|j| ['é', '🦀', 'a'][j % 3]).collect(); emit(single(k, &mb, "long")); }
+            }
+        } }
+    }
+    for n in [19usize, 20, 21, 39, 40, 255, 256, 257] {
+        let digits: String = (0..n).map(|j| char::from(b'1' + (j % 9) as u8)).collect();
+        emit(single("version", &format!("1.{digits}.3"), "long"));
+        emit(single("api", &format!("0.{digits}"), "long"));
+        let zeros = "0".repeat(n);
+        emit(single("api", &format!("{zeros}.{zeros}"), "long"));
+        emit(single("version", &format!("{zeros}.1.1"), "long"));
+    }
     for i in 0..(if thorough { 20_000 } else { 2_000 }) {
         let mut rng = Rng::for_case(seed ^ 0x5eed, i);
         let mut n = || { let x = rng.next(); match rng.below(4) { 0 => x, 1 => x >> 32, 2 => x >> 54, _ => *rng.pick(BOUNDARY) } };
